@@ -24,6 +24,17 @@ def run(rep, tier, seed):
         dirty = rng.chance(1, 3)
         nocount = is32 and rng.chance(1, 3)
         pokes = []
+        # a volume another system marked dirty / hard-error in the second FAT entry (this library never writes those bits)
+        fatdirty = not conf[0].startswith("fat12") and rng.chance(1, 3)
+        if fatdirty:
+            from props import c05
+            gm = c05.geom_of(conf)
+            for k in range(gm.fats):
+                base = (gm.reserved + k * gm.spf) * gm.bps
+                if is32:
+                    pokes.append("poke %d %s" % (base + 4, (0x07FFFFFF if rng.chance(1, 2) else 0x0BFFFFFF).to_bytes(4, "little").hex()))
+                else:
+                    pokes.append("poke %d %s" % (base + 2, (0x7FFF if rng.chance(1, 2) else 0xBFFF).to_bytes(2, "little").hex()))
         if dirty:
             pokes.append("poke %d 01" % (65 if is32 else 37))
         if nocount:
